@@ -168,6 +168,34 @@ def upload_binary(self, binary, timeout=2, interval=0.1, retry=3):
 
         block_number += HOLE_block_incr
         block_number &= HOLE_block_mask
+''', '''
+def upload_binary(self, binary, timeout=2, interval=0.1, retry=3):
+    block_number = HOLE_first_block
+    block_size = self._determine_max_block_size()
+
+    for chunk in chunks(binary, block_size):
+        tries = retry
+        while True:
+            try:
+                self.upload_firmware_block(block_number, chunk)
+            except CompletionCodeError as e:
+                if e.cc == HOLE_cc_in_progress:
+
+                    self.wait_for_long_duration_command(
+                            HOLE_cmd_upload_block,
+                            timeout, interval)
+                else:
+                    raise HpmError(
+                        'upload_firmware_block CC=0x%02x' % e.cc)
+            except IpmiTimeoutError:
+                tries -= HOLE_retry_dec
+                if tries <= HOLE_retry_floor:
+                    raise IpmiTimeoutError()
+                continue
+            break
+
+        block_number += HOLE_block_incr
+        block_number &= HOLE_block_mask
 ''']
 
 T_WAIT = ['''
@@ -427,6 +455,12 @@ def extract():
     k.update(_extract('Hpm._determine_max_block_size', H.Hpm._determine_max_block_size, T_BLOCKSIZE, scope))
     _extract('Hpm.upload_firmware_block', H.Hpm.upload_firmware_block, T_UPLOAD_BLOCK, scope)
     k.update(_extract('Hpm.upload_binary', H.Hpm.upload_binary, T_UPLOAD_BINARY, scope))
+    # which of the two admissible shapes: as shipped (an unanswered block is skipped) / repaired (sent again, same number)
+    try:
+        _extract('Hpm.upload_binary', H.Hpm.upload_binary, T_UPLOAD_BINARY[1:], scope)
+        k['upload_resend'] = 1
+    except TieBroken:
+        k['upload_resend'] = 0
     sig = inspect.signature(H.Hpm.upload_binary)
     k['default_timeout_tenths'] = _tenths('upload_binary timeout', sig.parameters['timeout'].default)
     k['default_interval_tenths'] = _tenths('upload_binary interval', sig.parameters['interval'].default)
@@ -512,6 +546,8 @@ def generate():
     for key in nat_keys:
         out.append('def %s : Nat := %d' % (_camel(key), int(k[key])))
     out.append('def fwLengthLe : Bool := %s' % ('true' if k['fw_length_le'] else 'false'))
+    out.append('/-- `upload_binary`: is a block whose request got no answer sent again (same number)?  As shipped: no. -/')
+    out.append('def uploadResend : Bool := %s' % ('true' if k['upload_resend'] else 'false'))
     out.append('')
     out.append('end PyIpmi.Gen.Hpm')
     lean.write_if_changed(OUT, '\n'.join(out) + '\n')
